@@ -64,3 +64,203 @@ Proof.
     by (intros u; apply comb_modified_binary).
   apply gibbs_duhem_comb_binary; try assumption; apply Rpow34_pos.
 Qed.
+
+(* ================= n chemicals, direction e_a - e_b ================= *)
+From V Require Import C16.ProofsIdx.
+From Coq Require Import Lia.
+
+Definition bump (a b : nat) (h : R) (j : nat) : R :=
+  (if Nat.eqb j a then h else 0) - (if Nat.eqb j b then h else 0).
+(* x + h (e_a - e_b) *)
+Definition shift_x (cs : list chem) (a b : nat) (h : R) : list chem :=
+  map (fun jc => set_cx (snd jc) (cx (snd jc) + bump a b h (fst jc))) (enum cs).
+
+Lemma enum_length {B} (l : list B) : length (enum l) = length l.
+Proof. unfold enum. rewrite combine_length, seq_length. apply Nat.min_id. Qed.
+
+Lemma shift_length cs a b h : length (shift_x cs a b h) = length cs.
+Proof. unfold shift_x. rewrite map_length. apply enum_length. Qed.
+
+Lemma nth_combine_seq {B} (l : list B) k i d : (i < length l)%nat ->
+  nth i (combine (seq k (length l)) l) (0%nat, d) = ((k + i)%nat, nth i l d).
+Proof.
+  revert k i. induction l as [|u t IH]; intros k i Hi; simpl in *; [lia|].
+  destruct i as [|i]; [f_equal; lia|]. rewrite IH by lia. f_equal. lia.
+Qed.
+
+Lemma nth_shift cs a b h i : (i < length cs)%nat ->
+  nth i (shift_x cs a b h) chem0 = set_cx (nth i cs chem0) (cx (nth i cs chem0) + bump a b h i).
+Proof.
+  intros Hi. unfold shift_x.
+  rewrite (nth_map_in _ (enum cs) i (0%nat, chem0)) by (rewrite enum_length; exact Hi).
+  unfold enum. rewrite nth_combine_seq by exact Hi. reflexivity.
+Qed.
+
+Lemma shift_fields cs a b h :
+  map cq (shift_x cs a b h) = map cq cs /\ map cr (shift_x cs a b h) = map cr cs.
+Proof.
+  unfold shift_x. rewrite !map_map. cbn [set_cx cq cr].
+  split.
+  - rewrite <- (map_map snd cq). unfold enum. rewrite map_snd_combine by (rewrite seq_length; reflexivity). reflexivity.
+  - rewrite <- (map_map snd cr). unfold enum. rewrite map_snd_combine by (rewrite seq_length; reflexivity). reflexivity.
+Qed.
+
+(* picking one entry out of an enumerated sum *)
+Lemma pick_sum (w : chem -> R) cs a : forall k,
+  sumR (map (fun jc => (if Nat.eqb (fst jc) a then 1 else 0) * w (snd jc)) (combine (seq k (length cs)) cs)) =
+  if (k <=? a)%nat && (a <? k + length cs)%nat then w (nth (a - k) cs chem0) else 0.
+Proof.
+  induction cs as [|c t IH]; intros k; simpl.
+  - destruct (k <=? a)%nat eqn:E1; simpl; auto.
+    destruct (a <? k + 0)%nat eqn:E2; auto. apply Nat.leb_le in E1. apply Nat.ltb_lt in E2. lia.
+  - rewrite IH. destruct (Nat.eqb k a) eqn:E.
+    + apply Nat.eqb_eq in E. subst k.
+      replace (S a <=? a)%nat with false by (symmetry; apply Nat.leb_gt; lia). simpl.
+      rewrite Nat.leb_refl. replace (a <? a + S (length t))%nat with true by (symmetry; apply Nat.ltb_lt; lia).
+      simpl. rewrite Nat.sub_diag. lra.
+    + apply Nat.eqb_neq in E.
+      destruct (k <=? a)%nat eqn:E1.
+      * apply Nat.leb_le in E1. replace (S k <=? a)%nat with true by (symmetry; apply Nat.leb_le; lia).
+        replace (a <? k + S (length t))%nat with (a <? S k + length t)%nat by (f_equal; lia).
+        simpl. destruct (a <? S (k + length t))%nat eqn:E2.
+        -- replace (a - k)%nat with (S (a - S k)) by lia. simpl. lra.
+        -- lra.
+      * apply Nat.leb_gt in E1. replace (S k <=? a)%nat with false by (symmetry; apply Nat.leb_gt; lia).
+        simpl. lra.
+Qed.
+
+Lemma shift_sum (w : chem -> R) cs a b h :
+  (forall c x, w (set_cx c x) = w c) -> (a < length cs)%nat -> (b < length cs)%nat ->
+  sum_over (shift_x cs a b h) (fun c => cx c * w c) =
+  sum_over cs (fun c => cx c * w c) + h * (w (nth a cs chem0) - w (nth b cs chem0)).
+Proof.
+  intros Hw Ha Hb. unfold sum_over, shift_x. rewrite map_map. cbn [set_cx cx].
+  rewrite (sumR_map_ext_in _ _
+     (fun jc => 1 * (cx (snd jc) * w (snd jc)) + h * ((if Nat.eqb (fst jc) a then 1 else 0) * w (snd jc))
+                + (- h) * ((if Nat.eqb (fst jc) b then 1 else 0) * w (snd jc)) + 0 * 0)).
+  2:{ intros [j c] _. cbn [fst snd]. rewrite Hw. unfold bump.
+      destruct (Nat.eqb j a), (Nat.eqb j b); ring. }
+  rewrite sumR_lin4. unfold enum. rewrite !(pick_sum w cs _ 0%nat).
+  replace ((0 <=? a)%nat && (a <? 0 + length cs)%nat) with true
+    by (symmetry; apply andb_true_iff; split; [apply Nat.leb_le|apply Nat.ltb_lt]; lia).
+  replace ((0 <=? b)%nat && (b <? 0 + length cs)%nat) with true
+    by (symmetry; apply andb_true_iff; split; [apply Nat.leb_le|apply Nat.ltb_lt]; lia).
+  rewrite !Nat.sub_0_r.
+  rewrite <- (map_map snd (fun c => cx c * w c)).
+  rewrite map_snd_combine by (rewrite seq_length; reflexivity). ring.
+Qed.
+
+Lemma sum_over_pos (cs : list chem) (f : chem -> R) : cs <> [] -> (forall c, In c cs -> 0 < f c) -> 0 < sum_over cs f.
+Proof.
+  intros NE H. destruct cs as [|c t]; [congruence|]. unfold sum_over.
+  apply (sumR_pos _ (f c)).
+  - intros y Hy. apply in_map_iff in Hy. destruct Hy as (u & <- & Hu). left. apply H. exact Hu.
+  - left. reflexivity.
+  - apply H. left. reflexivity.
+Qed.
+
+Lemma sum_over_enum_snd {B} (cs : list B) (H : B -> R) : sum_over (enum cs) (fun ic => H (snd ic)) = sum_over cs H.
+Proof.
+  unfold sum_over. rewrite <- (map_map snd H). unfold enum.
+  rewrite map_snd_combine by (rewrite seq_length; reflexivity). reflexivity.
+Qed.
+
+Lemma in_enum_nth (cs : list chem) i c : In (i, c) (enum cs) -> (i < length cs)%nat /\ c = nth i cs chem0.
+Proof.
+  intros Hin. destruct (In_nth _ _ (0%nat, chem0) Hin) as (k & Hk & Ek).
+  rewrite enum_length in Hk. unfold enum in Ek. rewrite nth_combine_seq in Ek by exact Hk.
+  inversion Ek; subst. split; [exact Hk|reflexivity].
+Qed.
+
+(* the kernel along the direction is the analytic form gdir *)
+Lemma comb_modified_along cs a b h i : (a < length cs)%nat -> (b < length cs)%nat -> (i < length cs)%nat ->
+  let c := nth i cs chem0 in
+  nth i (loggammacs_modified_UNIFAC KR (map cq cs) (map cr cs) (map cx (shift_x cs a b h))) 0 =
+  gdir (Rpow34 (cr c)) (cr c) (cq c)
+       (rho34 cs) (Rpow34 (cr (nth a cs chem0)) - Rpow34 (cr (nth b cs chem0)))
+       (rho cs) (cr (nth a cs chem0) - cr (nth b cs chem0))
+       (theta cs) (cq (nth a cs chem0) - cq (nth b cs chem0)) h.
+Proof.
+  intros Ha Hb Hi c.
+  destruct (shift_fields cs a b h) as [Eq Er]. rewrite <- Eq, <- Er.
+  rewrite loggammacs_modified_UNIFAC_map.
+  rewrite (nth_map_in _ _ i chem0) by (rewrite shift_length; exact Hi).
+  rewrite (nth_shift cs a b h i Hi). unfold comb_modified_of. cbn [set_cx cr cq]. fold c.
+  unfold rho, theta, rho34, gdir.
+  rewrite (shift_sum cr cs a b h) by auto.
+  rewrite (shift_sum cq cs a b h) by auto.
+  replace (sum_over (shift_x cs a b h) (fun c0 => Rpow34 (cr c0) * cx c0))
+    with (sum_over (shift_x cs a b h) (fun c0 => cx c0 * Rpow34 (cr c0)))
+    by (apply sum_over_ext; intros; ring).
+  rewrite (shift_sum (fun c0 => Rpow34 (cr c0)) cs a b h) by auto.
+  replace (sum_over cs (fun c0 => cx c0 * Rpow34 (cr c0))) with (sum_over cs (fun c0 => Rpow34 (cr c0) * cx c0))
+    by (apply sum_over_ext; intros; ring).
+  reflexivity.
+Qed.
+
+Lemma comb_UNIFAC_along cs a b h i : (a < length cs)%nat -> (b < length cs)%nat -> (i < length cs)%nat ->
+  let c := nth i cs chem0 in
+  nth i (loggammacs_UNIFAC KR (map cq cs) (map cr cs) (map cx (shift_x cs a b h))) 0 =
+  gdir (cr c) (cr c) (cq c)
+       (rho cs) (cr (nth a cs chem0) - cr (nth b cs chem0))
+       (rho cs) (cr (nth a cs chem0) - cr (nth b cs chem0))
+       (theta cs) (cq (nth a cs chem0) - cq (nth b cs chem0)) h.
+Proof.
+  intros Ha Hb Hi c.
+  destruct (shift_fields cs a b h) as [Eq Er]. rewrite <- Eq, <- Er.
+  rewrite loggammacs_UNIFAC_map.
+  rewrite (nth_map_in _ _ i chem0) by (rewrite shift_length; exact Hi).
+  rewrite (nth_shift cs a b h i Hi). cbn [set_cx cr cq]. fold c.
+  unfold rho, theta, gdir.
+  rewrite (shift_sum cr cs a b h) by auto.
+  rewrite (shift_sum cq cs a b h) by auto.
+  reflexivity.
+Qed.
+
+(* Gibbs-Duhem for the combinatorial part, n chemicals, along e_a - e_b at a point of the open simplex *)
+Lemma gibbs_duhem_comb_n cs a b : (a < length cs)%nat -> (b < length cs)%nat ->
+  (forall c, In c cs -> 0 < cx c /\ 0 < cr c /\ 0 < cq c) ->
+  sum_over cs cx = 1 ->
+  sum_over (enum cs) (fun ic => cx (snd ic) *
+     Derive (fun h => nth (fst ic) (loggammacs_modified_UNIFAC KR (map cq cs) (map cr cs) (map cx (shift_x cs a b h))) 0) 0) = 0 /\
+  sum_over (enum cs) (fun ic => cx (snd ic) *
+     Derive (fun h => nth (fst ic) (loggammacs_UNIFAC KR (map cq cs) (map cr cs) (map cx (shift_x cs a b h))) 0) 0) = 0.
+Proof.
+  intros Ha Hb Pos S1.
+  assert (NE : cs <> []) by (intros E; subst; simpl in Ha; lia).
+  assert (Prho : 0 < rho cs).
+  { apply sum_over_pos; auto. intros c Hc. destruct (Pos c Hc) as (A1 & A2 & A3). apply Rmult_lt_0_compat; lra. }
+  assert (Pth : 0 < theta cs).
+  { apply sum_over_pos; auto. intros c Hc. destruct (Pos c Hc) as (A1 & A2 & A3). apply Rmult_lt_0_compat; lra. }
+  assert (P34 : 0 < rho34 cs).
+  { apply sum_over_pos; auto. intros c Hc. destruct (Pos c Hc) as (A1 & A2 & A3).
+    apply Rmult_lt_0_compat; [apply Rpow34_pos|lra]. }
+  split.
+  - rewrite (sum_over_ext (enum cs) _
+      (fun ic => cx (snd ic) * Derive (fun h => gdir (Rpow34 (cr (snd ic))) (cr (snd ic)) (cq (snd ic))
+         (rho34 cs) (Rpow34 (cr (nth a cs chem0)) - Rpow34 (cr (nth b cs chem0)))
+         (rho cs) (cr (nth a cs chem0) - cr (nth b cs chem0))
+         (theta cs) (cq (nth a cs chem0) - cq (nth b cs chem0)) h) 0)).
+    2:{ intros [i c] Hin. destruct (in_enum_nth cs i c Hin) as [Hi Ec]. cbn [fst snd]. f_equal.
+        apply Derive_ext. intros h. rewrite (comb_modified_along cs a b h i Ha Hb Hi). subst c. reflexivity. }
+    rewrite (sum_over_enum_snd cs (fun c => cx c * Derive (fun h => gdir (Rpow34 (cr c)) (cr c) (cq c)
+         (rho34 cs) (Rpow34 (cr (nth a cs chem0)) - Rpow34 (cr (nth b cs chem0)))
+         (rho cs) (cr (nth a cs chem0) - cr (nth b cs chem0))
+         (theta cs) (cq (nth a cs chem0) - cq (nth b cs chem0)) h) 0)).
+    apply (gibbs_duhem_comb_direction cs cx (fun c => Rpow34 (cr c)) cr cq); auto.
+    + intros c Hc. destruct (Pos c Hc) as (A1 & A2 & A3). repeat split; auto. apply Rpow34_pos.
+    + unfold rho34, sum_over. f_equal. apply map_ext. intros c. ring.
+  - rewrite (sum_over_ext (enum cs) _
+      (fun ic => cx (snd ic) * Derive (fun h => gdir (cr (snd ic)) (cr (snd ic)) (cq (snd ic))
+         (rho cs) (cr (nth a cs chem0) - cr (nth b cs chem0))
+         (rho cs) (cr (nth a cs chem0) - cr (nth b cs chem0))
+         (theta cs) (cq (nth a cs chem0) - cq (nth b cs chem0)) h) 0)).
+    2:{ intros [i c] Hin. destruct (in_enum_nth cs i c Hin) as [Hi Ec]. cbn [fst snd]. f_equal.
+        apply Derive_ext. intros h. rewrite (comb_UNIFAC_along cs a b h i Ha Hb Hi). subst c. reflexivity. }
+    rewrite (sum_over_enum_snd cs (fun c => cx c * Derive (fun h => gdir (cr c) (cr c) (cq c)
+         (rho cs) (cr (nth a cs chem0) - cr (nth b cs chem0))
+         (rho cs) (cr (nth a cs chem0) - cr (nth b cs chem0))
+         (theta cs) (cq (nth a cs chem0) - cq (nth b cs chem0)) h) 0)).
+    apply (gibbs_duhem_comb_direction cs cx cr cr cq); auto.
+    intros c Hc. destruct (Pos c Hc) as (A1 & A2 & A3). repeat split; auto.
+Qed.
